@@ -24,7 +24,11 @@ git apply "$SRC/patch.diff" >>"$LOG" 2>&1 || { echo "$ID/$V: patch does not appl
 go build ./... >>"$LOG" 2>&1; R_BUILD=$?
 go test -vet=off -count=1 -run "$RUN" ./$PKG/ >>"$LOG" 2>&1; R_MUT=$?
 for d in $DEMOS; do rm -f "$WT/$PKG/$(basename $d)"; done
-go test -vet=off -count=1 -timeout 25m ./internal/... >>"$LOG" 2>&1; R_SUITE=$?
+# the suite uses fixed ports (7777, 25555): run it in a private network namespace, and once more if it fails
+# (two of its job tests are timing dependent on a loaded machine)
+suite() { unshare -n bash -c 'ip link set lo up 2>/dev/null; go test -vet=off -count=1 -timeout 25m ./internal/...'; }
+suite >>"$LOG" 2>&1; R_SUITE=$?
+if [ $R_SUITE -ne 0 ]; then echo "---- suite failed, second attempt" >>"$LOG"; suite >>"$LOG" 2>&1; R_SUITE=$?; fi
 git checkout -q -- . ; git clean -fdq
 cp "$SRC/patch.diff" "$OUT/"; for d in $DEMOS; do cp "$d" "$OUT/$(basename $d).txt"; done; cp "$SRC/demo.txt" "$SRC/notes.md" "$OUT/" 2>/dev/null
 # my check against the change: a private copy of /verif (so that work going on in /verif is not disturbed)
